@@ -207,9 +207,7 @@ package carddav
 //@   ensures A1: err == nil && propCarries(p, *req) && len(p.Raw) == 3
 //@   loop 1 invariant I1: addrDataReq.Allprop == nil && len(addrDataReq.Props) == #i && (cap(addrDataReq.Props) == 0 || fresh(addrDataReq.Props))
 //@   |   && (forall j :: 0 <= j && j < #i ==> addrDataReq.Props[j].Name == req.Props[j])
-//@ func carddav.decodeAddressList(ms) (aos, err)
-//@   trusted C10
-//@   requires R1: ms != nil
+//@ -- (the list decoder is under contract with the client functions below)
 //@ spec queryEncodable(q *AddressBookQuery) bool = forall j :: 0 <= j && j < len(q.PropFilters) ==>
 //@   | !(q.PropFilters[j].IsNotDefined && (len(q.PropFilters[j].TextMatches) > 0 || len(q.PropFilters[j].Params) > 0))
 //@   | && (forall k :: 0 <= k && k < len(q.PropFilters[j].Params) ==> !(q.PropFilters[j].Params[k].IsNotDefined && q.PropFilters[j].Params[k].TextMatch != nil))
@@ -219,7 +217,7 @@ package carddav
 //@   | && propCarries(w.Prop, q.DataRequest)
 //@ func carddav.(*Client).QueryAddressBook(c, ctx, addressBook, query) (aos, err)
 //@   reveal propRel
-//@   requires R1: c != nil && c.ic != nil && query != nil && sentCount == 0
+//@   requires R1: c != nil && clientOK(c.ic) && query != nil && sentCount == 0
 //@   requires R2: queryEncodable(query)
 //@   ensures C1: sentCount == 1 && sentMethod == "REPORT" && sentPath == addressBook
 //@   ensures C2: dynPtr(sentBody, "*addressbookQuery") != nil && wireDenotes(dynPtr(sentBody, "*addressbookQuery"), query)
@@ -229,7 +227,7 @@ package carddav
 
 //@ -- C09: addressbook-multiget: hrefs in order, data request carried
 //@ func carddav.(*Client).MultiGetAddressBook(c, ctx, path, multiGet) (aos, err)
-//@   requires R1: c != nil && c.ic != nil && multiGet != nil && sentCount == 0
+//@   requires R1: c != nil && clientOK(c.ic) && multiGet != nil && sentCount == 0
 //@   ensures G1: sentCount == 1 && sentMethod == "REPORT" && sentPath == path
 //@   ensures G2: let w : dynPtr(sentBody, "*addressbookMultiget") in w != nil && propCarries(w.Prop, multiGet.DataRequest)
 //@   |   && (len(multiGet.Paths) == 0 ? (len(w.Hrefs) == 1 && w.Hrefs[0].Path == path)
@@ -548,3 +546,100 @@ package carddav
 //@   allocates
 //@   ensures V1: mutations == old(mutations) && epCalls == old(epCalls) && epCode == old(epCode) && epVal == old(epVal)
 //@   ensures V2: err != nil ==> beErr(err) || fromEnv(err)
+
+//@ -- ---------------------------------------------------------------------------------------
+//@ -- C14: sync-collection classification. A response reported with 404 is a deletion and nothing else, any other
+//@ -- failed response aborts the call, and only responses that did not fail become updated objects.
+//@ spec failedWith404(r internal.Response) bool = r.Status != nil && r.Status.Code / 100 != 2 && r.Status.Code == 404
+//@ spec failedOther(r internal.Response) bool = r.Status != nil && r.Status.Code / 100 != 2 && r.Status.Code != 404
+//@ spec notFailed(r internal.Response) bool = r.Status == nil || r.Status.Code / 100 == 2
+//@ func carddav.(*Client).SyncCollection(c, ctx, path, query) (ret, err)
+//@   requires R1: c != nil && clientOK(c.ic) && query != nil
+//@   allocates
+//@   assigns ghost:data, ghost:doCalls, ghost:lastReq, ghost:sentCount, ghost:sentMethod, ghost:sentPath, ghost:sentBody, ghost:hv
+//@   ensures Y1: doCalls == old(doCalls) ==> ret == nil && err != nil
+//@   ensures Y2: doCalls == old(doCalls) + 1 && (lastErr(c.ic) != nil || lastStatus(c.ic) != 207) ==> ret == nil && err != nil
+//@   ensures Y3: doCalls == old(doCalls) + 1 && lastErr(c.ic) == nil && lastStatus(c.ic) / 100 != 2 ==> dynHTTP(err) && httpCode(err) == lastStatus(c.ic)
+//@   ensures Y4: err != nil ==> ret == nil
+//@   ensures Y5: doCalls == old(doCalls) || doCalls == old(doCalls) + 1
+//@   -- the decoded document (what DoMultiStatus handed over)
+//@   ensures Z1: err == nil ==> (let d : decoded(xmlDecoderOf(doResp(c.ic.http, lastReq).Body), "internal.MultiStatus") in forall j int :: 0 <= j && j < len(d.Responses) ==> !failedOther(d.Responses[j]))
+//@   ensures Z2: err == nil ==> (let d : decoded(xmlDecoderOf(doResp(c.ic.http, lastReq).Body), "internal.MultiStatus") in forall k int :: 0 <= k && k < len(ret.Updated) ==>
+//@   |   (exists j int :: 0 <= j && j < len(d.Responses) && notFailed(d.Responses[j]) && len(d.Responses[j].Hrefs) == 1 && ret.Updated[k].Path == d.Responses[j].Hrefs[0].Path))
+//@   ensures Z3: err == nil ==> (let d : decoded(xmlDecoderOf(doResp(c.ic.http, lastReq).Body), "internal.MultiStatus") in len(ret.Updated) + len(ret.Deleted) <= len(d.Responses))
+//@   loop 1 invariant I1: ret != nil && fresh(ret) && (cap(ret.Deleted) == 0 || fresh(ret.Deleted)) && (cap(ret.Updated) == 0 || fresh(ret.Updated)) && doCalls == old(doCalls) + 1 && lastErr(c.ic) == nil && lastStatus(c.ic) == 207
+//@   loop 1 invariant I1b: ms != nil && *ms == decoded(xmlDecoderOf(doResp(c.ic.http, lastReq).Body), "internal.MultiStatus") && c.ic == old(c.ic) && c.ic.http == old(c.ic.http)
+//@   loop 1 invariant I2: forall j int :: 0 <= j && j < #i ==> !failedOther(ms.Responses[j])
+//@   loop 1 invariant I3: len(ret.Updated) + len(ret.Deleted) <= #i
+//@   loop 1 invariant I5: forall k int :: 0 <= k && k < len(ret.Updated) ==> (exists j int :: 0 <= j && j < #i && notFailed(ms.Responses[j]) && len(ms.Responses[j].Hrefs) == 1 && ret.Updated[k].Path == ms.Responses[j].Hrefs[0].Path)
+
+//@ -- ---------------------------------------------------------------------------------------
+//@ -- The client (C14: failures are reported with their status, failed responses are never data; C10: what the
+//@ -- answer's headers and properties say is what the caller gets)
+//@ spec cclientOKCar(c *Client) bool = c != nil && clientOK(c.ic) && hasPrefix(c.ic.endpoint.Path, "/")
+//@ func carddav.populateAddressObject(ao, h) (err)
+//@   requires R1: ao != nil
+//@   assigns H_carddav_AddressObject_Path, H_carddav_AddressObject_ETag, H_carddav_AddressObject_ContentLength, H_carddav_AddressObject_ModTime
+//@   -- Go-quoted entity tag, URL path of Location, HTTP date: each accepted back as the server formats it (C16 round trips)
+//@   ensures P1: err == nil && hget(hv, h, "ETag") != "" ==> unquoteOk(hget(hv, h, "ETag")) && ao.ETag == unquoteVal(hget(hv, h, "ETag"))
+//@   ensures P2: err == nil && hget(hv, h, "ETag") == "" ==> ao.ETag == old(ao.ETag)
+//@   ensures P3: err == nil && hget(hv, h, "Location") != "" ==> urlParseOk(hget(hv, h, "Location")) && ao.Path == urlParsePath(hget(hv, h, "Location"))
+//@   ensures P4: err == nil && hget(hv, h, "Location") == "" ==> ao.Path == old(ao.Path)
+//@   ensures P5: err == nil && hget(hv, h, "Last-Modified") != "" ==> timeParseOk(http.TimeFormat, hget(hv, h, "Last-Modified")) && ns(ao.ModTime) == timeParseNs(http.TimeFormat, hget(hv, h, "Last-Modified"))
+//@   ensures P6: (hget(hv, h, "ETag") != "" && !unquoteOk(hget(hv, h, "ETag"))) || (hget(hv, h, "Location") != "" && !urlParseOk(hget(hv, h, "Location"))) ==> err != nil
+//@   ensures P7: forall q *AddressObject :: q != ao ==> q.Path == old(q.Path) && q.ETag == old(q.ETag)
+//@ func carddav.(*Client).GetAddressObject(c, ctx, path) (ao, err)
+//@   requires R1: cclientOKCar(c)
+//@   allocates
+//@   assigns ghost:data, ghost:doCalls, ghost:lastReq, ghost:nrCalls, ghost:nrMethod, ghost:nrURL, ghost:nrReq, ghost:hv, ghost:rstatus
+//@   ensures E1: doCalls == old(doCalls) ==> ao == nil && err != nil
+//@   ensures E2: doCalls == old(doCalls) + 1 && lastErr(c.ic) != nil ==> ao == nil && err == lastErr(c.ic)
+//@   ensures E2b: doCalls == old(doCalls) + 1 && lastErr(c.ic) == nil && lastStatus(c.ic) / 100 != 2 ==> ao == nil && dynHTTP(err) && httpCode(err) == lastStatus(c.ic)
+//@   ensures E3: doCalls == old(doCalls) || doCalls == old(doCalls) + 1
+//@   ensures G1: err != nil ==> ao == nil
+//@   ensures G2: doCalls == old(doCalls) + 1 ==> nrMethod == "GET" && (!hasPrefix(resolved(c.ic, path), "//") ==> urlParseOk(nrURL) && urlParsePath(nrURL) == resolved(c.ic, path))
+//@ func carddav.(*Client).PutAddressObject(c, ctx, path, card) (ao, err)
+//@   requires R1: cclientOKCar(c)
+//@   allocates
+//@   assigns ghost:data, ghost:doCalls, ghost:lastReq, ghost:nrCalls, ghost:nrMethod, ghost:nrURL, ghost:nrReq, ghost:hv, ghost:rstatus
+//@   ensures E1: doCalls == old(doCalls) ==> ao == nil && err != nil
+//@   ensures E2: doCalls == old(doCalls) + 1 && lastErr(c.ic) != nil ==> ao == nil && err == lastErr(c.ic)
+//@   ensures E2b: doCalls == old(doCalls) + 1 && lastErr(c.ic) == nil && lastStatus(c.ic) / 100 != 2 ==> ao == nil && dynHTTP(err) && httpCode(err) == lastStatus(c.ic)
+//@   ensures E3: doCalls == old(doCalls) || doCalls == old(doCalls) + 1
+//@   ensures U1: err != nil ==> ao == nil
+//@   ensures U2: doCalls == old(doCalls) + 1 ==> nrMethod == "PUT" && hget(hv, lastReq.Header, "Content-Type") == "text/vcard" && (!hasPrefix(resolved(c.ic, path), "//") ==> urlParseOk(nrURL) && urlParsePath(nrURL) == resolved(c.ic, path))
+//@   -- the answer's Location / ETag are handed back; without a Location the object keeps the request path
+//@   ensures U3: err == nil ==> ao != nil && (let h : doResp(c.ic.http, lastReq).Header in (hget(hv, h, "Location") == "" ? ao.Path == path : ao.Path == urlParsePath(hget(hv, h, "Location"))) && (hget(hv, h, "ETag") != "" ==> ao.ETag == unquoteVal(hget(hv, h, "ETag"))))
+//@ func carddav.(*Client).FindAddressBookHomeSet(c, ctx, principal) (p, err)
+//@   requires R1: cclientOKCar(c)
+//@   allocates
+//@   assigns ghost:data, ghost:doCalls, ghost:lastReq, ghost:sentCount, ghost:sentMethod, ghost:sentPath, ghost:sentBody, ghost:hv
+//@   ensures E1: doCalls == old(doCalls) ==> p == "" && err != nil
+//@   ensures E2: doCalls == old(doCalls) + 1 && (lastErr(c.ic) != nil || lastStatus(c.ic) != 207) ==> p == "" && err != nil && (lastErr(c.ic) == nil && lastStatus(c.ic) / 100 != 2 ==> httpCode(err) == lastStatus(c.ic))
+//@   ensures E3: doCalls == old(doCalls) || doCalls == old(doCalls) + 1
+//@   ensures H1: err != nil ==> p == ""
+
+//@ -- one object per response, in order, under the response's href; a failed response or a failed mandatory property
+//@ -- aborts with an error (C14), it never becomes an object
+//@ func carddav.decodeAddressList(ms) (addrs, err)
+//@   requires R1: ms != nil
+//@   allocates
+//@   ensures L1: err == nil ==> len(addrs) == len(ms.Responses) && (forall j int :: 0 <= j && j < len(addrs) ==> !respFailedV(ms.Responses[j]) && len(ms.Responses[j].Hrefs) == 1 && addrs[j].Path == ms.Responses[j].Hrefs[0].Path)
+//@   ensures L2: err != nil ==> addrs == nil
+//@   ensures L3: (exists j int :: 0 <= j && j < len(ms.Responses) && respFailedV(ms.Responses[j])) ==> err != nil
+//@   loop 1 invariant I1: fresh(addrs) && len(addrs) == #i && len(ms.Responses) == old(len(ms.Responses)) && (forall j int :: 0 <= j && j < len(ms.Responses) ==> ms.Responses[j] == old(ms.Responses[j]))
+//@   loop 1 invariant I2: forall j int :: 0 <= j && j < #i ==> !respFailedV(ms.Responses[j]) && len(ms.Responses[j].Hrefs) == 1 && addrs[j].Path == ms.Responses[j].Hrefs[0].Path
+//@ func carddav.(*Client).FindAddressBooks(c, ctx, addressBookHomeSet) (l, err)
+//@   requires R1: cclientOKCar(c)
+//@   allocates
+//@   assigns ghost:data, ghost:doCalls, ghost:lastReq, ghost:sentCount, ghost:sentMethod, ghost:sentPath, ghost:sentBody, ghost:hv
+//@   ensures E1: doCalls == old(doCalls) ==> l == nil && err != nil
+//@   ensures E2: doCalls == old(doCalls) + 1 && (lastErr(c.ic) != nil || lastStatus(c.ic) != 207) ==> l == nil && err != nil && (lastErr(c.ic) == nil && lastStatus(c.ic) / 100 != 2 ==> httpCode(err) == lastStatus(c.ic))
+//@   ensures E3: doCalls == old(doCalls) || doCalls == old(doCalls) + 1
+//@   ensures F1: err != nil ==> l == nil
+//@   -- any failed response aborts the listing
+//@   ensures F2: err == nil ==> (let d : decoded(xmlDecoderOf(doResp(c.ic.http, lastReq).Body), "internal.MultiStatus") in len(l) <= len(d.Responses) && (forall j int :: 0 <= j && j < len(d.Responses) ==> !respFailedV(d.Responses[j])))
+//@   ensures F3: doCalls == old(doCalls) + 1 ==> sentMethod == "PROPFIND" && sentPath == addressBookHomeSet && hget(hv, lastReq.Header, "Depth") == "1"
+//@   loop 1 invariant I1: fresh(l) && len(l) <= #i && ms != nil && *ms == decoded(xmlDecoderOf(doResp(c.ic.http, lastReq).Body), "internal.MultiStatus") && doCalls == old(doCalls) + 1 && lastErr(c.ic) == nil && lastStatus(c.ic) == 207
+//@   |   && sentMethod == "PROPFIND" && sentPath == addressBookHomeSet && hget(hv, lastReq.Header, "Depth") == "1"
+//@   loop 1 invariant I2: forall j int :: 0 <= j && j < #i ==> !respFailedV(ms.Responses[j])
